@@ -119,7 +119,11 @@ func init() {
 				}
 				m, _ := matcher.New("", "", "", "", "^(old|new)\\.(.*)", "")
 				tick = make(chan time.Time)
-				out := make(chan []byte, 100000)
+				out := make(chan []byte, 64)
+				go func() {
+					for range out {
+					}
+				}()
 				var err error
 				agg, err = aggregator.NewMocked("sum", m, "agg.$2", false, 10, 1000000000, false, out, 1, nowFn, tick)
 				if err != nil {
